@@ -152,6 +152,9 @@ impl Scenario for PaseStorm {
             if wrong {
                 let n = if many_wrong { 22 + tape::choose(4) } else { 1 + tape::choose(4) };
                 for _ in 0..n {
+                    // The attack ends in time for everything it left behind to time out before
+                    // the honest probe (an attempt takes up to ~45 s, PASE establishment 60 s)
+                    script.push(CtlStep::StopIfAfter { ms: 280_000 });
                     script.push(CtlStep::PaseAttempt { dev: 0, passcode });
                 }
             } else if tape::biased(2, 500) == 1 {
